@@ -212,6 +212,19 @@ pub fn exec_line(sess: &mut Session, line: &str) -> String {
             let ok = msi::Category::Language.validate(v.as_str().unwrap());
             format!("{} {}", V::of_msi(&v).tok(), ok as i32)
         }
+        "sn_encode" => {
+            let n = str_of_hex(toks[1]).unwrap();
+            hex_of_str(&msi::verif::streamname::encode(&n, toks[2] == "1"))
+        }
+        "sn_decode" => {
+            let n = str_of_hex(toks[1]).unwrap();
+            let (d, t) = msi::verif::streamname::decode(&n);
+            format!("{} {}", hex_of_str(&d), t as i32)
+        }
+        "sn_valid" => {
+            let n = str_of_hex(toks[1]).unwrap();
+            (msi::verif::streamname::is_valid(&n, toks[2] == "1") as i32).to_string()
+        }
         "cp_id" => match cp_by_name(toks[1]) {
             Some(cp) => cp.id().to_string(),
             None => "bad-request".to_string(),
